@@ -87,6 +87,21 @@ def run_engines(ck, b, progs, want_native=True, styles=('prefix',)):
     return res
 
 
+# generator features whose divergence is an OPEN finding of ONE engine: programs using them are still generated and still
+# judged on the other engine (and on all three ties); only the affected engine's property-level comparison is exempt
+ENGINE_FINDINGS = {'lang:self-ref-shadow': ('native', ('self_ref_shadow',), 'self_ref_shadow'),
+                   'lang:arg-order': ('native', ('multi_effect_args', 'multi_effect_operands'), 'multi_effect_args')}
+
+
+def exempt_engines(ck, feat):
+    open_keys = {k['key'] for k in ck.known}
+    ex = set()
+    for key, (eng, fs, _) in ENGINE_FINDINGS.items():
+        if key in open_keys and any(f in feat for f in fs):
+            ex.add(eng)
+    return ex
+
+
 def check_programs(ck, b, nv, progs, feats, stream, want_native=True, ties=True):
     """stream: 'gen' | 'witness'.  Returns number of failures recorded."""
     sx = [progen.to_sexp(p) for _, p in progs]
@@ -108,9 +123,17 @@ def check_programs(ck, b, nv, progs, feats, stream, want_native=True, ties=True)
             ck.fail(key + ':ref-stuck', 'reference semantics is stuck on a generated program (generator or Ref defect)', rep)
             nfail += 1
             continue
+        # a self-referential let (`let x = (+ x 1)` shadowing an outer x) becomes `T x = x + 1;` in C: the initialiser reads the
+        # NEW, uninitialised x (open finding lang:self-ref-shadow).  Whether cc refuses it (-Wuninitialized is flow- and
+        # optimisation-dependent) and what the binary prints otherwise is not modelled: NatSem says 'ccfail' for all of them.
+        nat_unmodelled = (stream == 'gen' and mn is not None and mn['cls'] == 'ccfail'
+                          and 'lang:self-ref-shadow' in {k['key'] for k in ck.known})
         # ---- property level: each real engine against the reference
         for eng, obs in (('vm', R['vm_big']), ('native', R['nat'])):
             if obs is None:
+                continue
+            if stream == 'gen' and (eng in exempt_engines(ck, feats.get(pid, {})) or (eng == 'native' and nat_unmodelled)):
+                ck.extra['engine_exempt'][eng] += 1
                 continue
             if obs['cls'] == 'rejected':
                 # the front end refused a program the reference type system accepts: no engine ran, no verdict here
@@ -147,7 +170,7 @@ def check_programs(ck, b, nv, progs, feats, stream, want_native=True, ties=True)
             nfail += 1
         else:
             ck.extra['ties_ok']['vmrun'] += 1
-        if mn is not None and R['nat'] is not None:
+        if mn is not None and R['nat'] is not None and not nat_unmodelled:
             if not same_model(mn, R['nat']):
                 ck.extra['tie_breaks']['native'] += 1
                 ck.fail(key + ':tie-native', 'correspondence broken: NatSem model run != real native run: model=%s real=%s/%s' % (mn['cls'], R['nat']['cls'], R['nat']['rc']),
@@ -306,7 +329,7 @@ def run(ck):
     b = ck.build('plain')
     vlib.sync_nanocore()
     ck.gen(['gen_isa'])
-    for k in ('ref_classes', 'engine_runs', 'tie_breaks', 'ties_ok', 'features'):
+    for k in ('ref_classes', 'engine_runs', 'engine_exempt', 'tie_breaks', 'ties_ok', 'features'):
         ck.extra[k] = collections.Counter()
     ck.prove()
     nv = ck.nvref('lang')
@@ -317,10 +340,14 @@ def run(ck):
     check_programs(ck, b, nv, operator_table(ck, b, nv), {}, 'witness')
     # 3. generated stream
     cfg = stream_cfg(ck)
+    # every third program also uses the constructs on which only the native engine has an open finding (see ENGINE_FINDINGS)
+    cfg_vm = progen.Cfg(**{k: v for k, v in cfg.__dict__.items()})
+    for key, (eng, fs, flag) in ENGINE_FINDINGS.items():
+        setattr(cfg_vm, flag, True)
     n = 400 if ck.thorough else 90
     progs, feats = [], {}
     for i in range(n):
-        g = progen.Gen(random.Random(ck.seed * 100003 + i), cfg)
+        g = progen.Gen(random.Random(ck.seed * 100003 + i), cfg_vm if i % 3 == 2 else cfg)
         p = g.gen_program()
         pid = 's%d-%d' % (ck.seed, i)
         progs.append((pid, p)); feats[pid] = dict(g.feat)
@@ -348,7 +375,7 @@ def run(ck):
                       'through identity calls so the C compiler cannot fold) + type-directed random programs (progen.py: effects in operands, '
                       'shadowing, break/continue, recursion, globals, boundary literals); non-trivial = the reference run terminates and prints '
                       'at least one byte; distinct = distinct program')
-    for k in ('ref_classes', 'engine_runs', 'tie_breaks', 'ties_ok', 'features'):
+    for k in ('ref_classes', 'engine_runs', 'engine_exempt', 'tie_breaks', 'ties_ok', 'features'):
         ck.extra[k] = dict(ck.extra[k])
     ck.extra['generator_config'] = {k: v for k, v in cfg.__dict__.items()}
     ck.trusted += ['Lang/Ref.v as a faithful transcription of docs/SPECIFICATION.md sections 4-8 (reviewed by hand)',
